@@ -178,6 +178,17 @@ def install(reg):
             a, b = args[0].z, args[1].z
             return [(st, mk_int(z3.If(a <= b, a, b) if name == 'min' else z3.If(a >= b, a, b)))]
         return None
+    @M('zip')
+    def _zip(e, st, args, kw, node):
+        if len(args) != 2 or not all(isinstance(a.t, ListT) for a in args): return None
+        a, b = args; ta, tb = a.t, b.t
+        if ta.elem == ANY or tb.elem == ANY: return [(st, V(IterT(), []))]
+        za, zb = e.deref(st, a), e.deref(st, b)
+        tt = TupleT(ta.elem, tb.elem); lt = ListT(tt); L = fresh_z(lt, 'zipped'); i = z3.Int(fresh_name('i'))
+        na, nb = list_len(ta, za), list_len(tb, zb)
+        st.assume(list_len(lt, L) == z3.If(na < nb, na, nb))
+        st.assume(z3.ForAll([i], z3.Implies(z3.And(0 <= i, i < list_len(lt, L)), list_get(lt, L, i) == tup_mk(tt, [list_get(ta, za, i), list_get(tb, zb, i)])), patterns=[list_get(lt, L, i)]))
+        return [(st, V(lt, L))]
     @M('bytearray')
     def _bytearray(e, st, args, kw, node):
         if args: return None
